@@ -269,6 +269,14 @@ class P:
             else:
                 self.eat('>')
             return ('vec', inner)
+        if name == 'Option' and self.peek() == '<':
+            self.eat()
+            inner = self.ty()
+            if self.peek() == '>>':
+                self.t[self.i] = ('op', '>')
+            else:
+                self.eat('>')
+            return ('option', inner)
         if self.peek() == '<':
             d = 0
             while True:
@@ -300,6 +308,15 @@ class P:
         if v == 'mut':
             self.eat()
             return ('pvar', self.eat())
+        if v == '&':
+            self.eat()
+            return self.pat()
+        if v == 'Some' and self.peek(1) == '(':
+            self.eat()
+            self.eat('(')
+            inner = self.pat()
+            self.eat(')')
+            return ('psome', inner)
         if v == '_':
             self.eat()
             return ('pwild',)
@@ -400,12 +417,23 @@ class P:
         if k == 'str' or k == 'chr':
             self.eat()
             return ('str', v)           # parsed, never translated
+        if k == 'op' and v in ('||', '|'):
+            # closure: parsed, never translated
+            self.eat()
+            if v == '|':
+                while self.peek() != '|':
+                    self.eat()
+                self.eat('|')
+            return ('closure', self.expr())
         if v == '(':
             self.eat()
             es = []
             trailing = False
             while self.peek() != ')':
                 es.append(self.expr())
+                if self.peek() in ('..', '..='):
+                    incl = self.eat() == '..='
+                    es[-1] = ('rangeincl' if incl else 'range', es[-1], self.expr())
                 trailing = False
                 if self.peek() == ',':
                     self.eat()
@@ -448,6 +476,8 @@ class P:
                     segs.append(('tf', t))
                 else:
                     segs.append(self.eat())
+            if isinstance(segs[-1], str) and segs[-1].endswith('!') and self.peek() == '[':
+                return ('call', segs, [self.primary(False)])        # vec![..]
             if self.peek() == '{' and not nostruct and isinstance(segs[-1], str) and segs[-1][:1].isupper() \
                     and not segs[-1].isupper():
                 # struct literal  Name { field: expr, shorthand, .. }
@@ -503,6 +533,17 @@ class P:
 
     def ifexpr(self):
         self.eat('if')
+        if self.peek() == 'let':
+            self.eat()
+            pt = self.pat()
+            self.eat('=')
+            sc = self.expr(nostruct=True)
+            th = self.block()
+            el = None
+            if self.peek() == 'else':
+                self.eat()
+                el = ('block', [], self.ifexpr()) if self.peek() == 'if' else self.block()
+            return ('iflet', pt, sc, th, el)
         c = self.expr(nostruct=True)
         th = self.block()
         el = None
@@ -608,7 +649,7 @@ class P:
             if nv == '}':
                 final = e
                 break
-            if e[0] == 'if':
+            if e[0] in ('if', 'iflet'):
                 stmts.append(('expr', e))
                 continue
             raise TranslateError('statement: unexpected %r' % (nv,))
@@ -910,6 +951,8 @@ class FnEmitter:
             if t in ('Self::PositiveInteger', 'B::PositiveInteger'):
                 return self.mod.rawty
             raise TranslateError('type %s' % t)
+        if t[0] == 'option':
+            return ('agg', ['bool', self.norm_ty(t[1])])        # Option<T> = (is_some, value)
         if t[0] in ('vec', 'slice'):
             # a vector / slice of integers or of registered objects is a Lean list
             et = t[1]
@@ -959,6 +1002,11 @@ class FnEmitter:
             if len(segs) == 1 and segs[0] in env:
                 return env[segs[0]]
             name = segs[-1]
+            if len(segs) == 2 and segs[0] in INT_TYPES and is_signed(segs[0]) and name in ('MAX', 'MIN', 'BITS'):
+                w = INT_TYPES[segs[0]]
+                if name == 'BITS':
+                    return self.lit(w, 'u32')
+                return self.lit((1 << (w - 1)) - 1 if name == 'MAX' else -(1 << (w - 1)), segs[0])
             if len(segs) == 2 and segs[0] in INT_TYPES and is_unsigned(segs[0]) and name in ('MAX', 'BITS', 'MIN'):
                 w = INT_TYPES[segs[0]]
                 if name == 'BITS':
@@ -1203,6 +1251,14 @@ class FnEmitter:
 
     def method(self, e, env, want):
         _, recv, name, args, tf = e
+        if name == 'contains' and recv[0] == 'rangeincl' and len(args) == 1:
+            v = self.ev(args[0], env, None)
+            lo = self.ev(recv[1], env, v.ty)
+            hi = self.ev(recv[2], env, v.ty)
+            if v.agg or v.ty not in INT_TYPES or lo.ty != v.ty or hi.ty != v.ty:
+                raise TranslateError('range contains on %r' % (v.ty,))
+            return SV('%s ≤ %s ∧ %s ≤ %s' % (paren(lo.e), paren(v.e), paren(v.e), paren(hi.e)), 'bool',
+                      v.fv | lo.fv | hi.fv)
         if name in ('into',):
             x = self.ev(recv, env, None)
             if want is None:
@@ -1221,6 +1277,8 @@ class FnEmitter:
                 return SV('List.isEmpty %s = true' % paren(x.e), 'bool', x.fv)
             if name == 'to_vec' and not args:
                 return x
+            if name == 'rev' and not args:
+                return SV('List.reverse %s' % paren(x.e), x.ty, x.fv)
             if name == 'contains' and len(args) == 1 and x.ty[5:] in INT_TYPES:
                 y = self.ev(args[0], env, x.ty[5:])
                 if y.agg or y.ty != x.ty[5:]:
@@ -1269,6 +1327,13 @@ class FnEmitter:
                 if x.e != '0':
                     raise TranslateError('count_zeros of a non-zero value')
                 return self.lit(w, 'u32')
+        if name == 'checked_shl' and len(args) == 1:
+            y = self.ev(args[0], env, 'u32')
+            if y.ty != 'u32':
+                raise TranslateError('checked_shl: amount of type %s' % y.ty)
+            fv = x.fv | y.fv
+            return SV(items=[SV('%s < %d' % (paren(y.e), w), 'bool', fv),
+                             SV('%s * 2 ^ %s %% %s' % (paren(x.e), paren(y.e), Pw), x.ty, fv)])
         if name in ('wrapping_shr', 'wrapping_shl'):
             y = self.ev(args[0], env, 'u32')
             if y.ty != 'u32':
@@ -1563,6 +1628,27 @@ class FnEmitter:
                 ex = st[1]
                 if ex[0] == 'if':
                     self.ifstmt(ex, env)
+                elif ex[0] == 'iflet':
+                    # if let Some(x) = opt { .. }   with opt = (is_some, value)
+                    _, pt, sc, th, el = ex
+                    if pt[0] != 'psome' or pt[1][0] != 'pvar' or el is not None:
+                        raise TranslateError('if let: only `Some(x)` without else')
+                    o = self.ev(sc, env)
+                    if not o.agg or len(o.items) != 2 or o.items[0].ty != 'bool':
+                        raise TranslateError('if let on a non-Option value')
+                    cvb = self.bind('c', o.items[0])
+                    env_t = dict(env)
+                    env_t[pt[1][1]] = o.items[1]
+                    bound0 = env_t[pt[1][1]]
+                    self.guards.append((cvb.e, cvb.fv))
+                    self.block(th, env_t, None)
+                    self.guards.pop()
+                    for n in env:
+                        if n == pt[1][1] and env_t.get(n) is bound0:
+                            continue            # the pattern variable shadows the option inside the block only
+                        if env_t.get(n) is not env[n] and not isinstance(env[n], tuple):
+                            m = self.merge_env(cvb, env_t[n], env[n], env[n])
+                            env[n] = self.bind(n, m)
                 elif ex[0] == 'method' and ex[2] == 'push' and len(ex[3]) == 1 and ex[1][0] == 'path' \
                         and len(ex[1][1]) == 1 and ex[1][1][0] in env:
                     # v.push(x)  ==  v = v ++ [x]
@@ -1937,6 +2023,10 @@ class FnEmitter:
 
     def iter_elem(self, e):
         """rust element type of an (already lifted) iterator expression over lifted vectors, or None."""
+        if e[0] == 'path' and len(e[1]) == 1 and e[1][0] in getattr(self, 'vecparams', {}):
+            return self.vecparams[e[1][0]]
+        if e[0] == 'method' and e[2] == 'rev' and not e[3]:
+            return self.iter_elem(e[1])
         if e[0] == 'path' and len(e[1]) == 1 and isinstance(e[1][0], str) and e[1][0].startswith('@'):
             for root in self.lifted:
                 t = self.lifted[root].get(e[1][0][1:])
@@ -2011,7 +2101,9 @@ class FnEmitter:
             tn = self.selftype if (pn == 'self' or pt == 'Self') else pt
             if isinstance(tn, str) and tn in self.mod.objtypes:
                 roots[pn] = tn
-        if roots:
+        self.vecparams = dict((prm[0], prm[1][1]) for prm in self.params
+                              if isinstance(prm[1], tuple) and prm[1][0] in ('vec', 'slice'))
+        if roots or any(self.mod.is_obj(t) for t in self.vecparams.values()):
             self.lifted = dict((r, {}) for r in roots)
             self.body = self.lift(self.body, roots)
         # methods called on the elements of a vector of objects: function parameters `T_m`, `T_m_ok`
@@ -2254,12 +2346,21 @@ class ModuleCtx:
             raise TranslateError('%s :: %s %r: internal %s: %s' % (self.path, key, steps, type(ex).__name__, ex))
         return em
 
-    def add_fn(self, key, leanname, generic_f=False, hints=None):
+    def add_fn(self, key, leanname, generic_f=False, hints=None, ok_only=False, result=None, ret_src=None):
+        """ok_only: translate the statements only (assertions, side conditions), result `()` — for constructors
+        whose value is a struct of objects; result / ret_src: replace the final expression by the given Rust
+        expression over the function's locals (e.g. the integer fields a constructor stores)."""
         it = self.items.get(key)
         if it is None or it.kind != 'fn':
             raise TranslateError('fn %s not found in %s' % (key, self.path))
         try:
             name, params, ret, body = parse_fn(it)
+            if ok_only:
+                body, ret = ('block', body[1], None), None
+            if result is not None:
+                body, ret = ('block', body[1], parse_src(result, 'expr')), parse_src(ret_src, 'ty')
+            if any(st[0] == 'for' for st in body[1]):
+                body = desugar_for_return(body, ret)
             em = FnEmitter(self, leanname, params, ret, body, generic_f)
             em.hints = hints or {}
             if '::' in key:
@@ -2279,14 +2380,56 @@ class ModuleCtx:
         self.sigs[key.split('::')[-1]] = (leanname, em.ptys, em.rty) if key.split('::')[-1] not in self.sigs else self.sigs[key.split('::')[-1]]
         return em
 
+def desugar_for_return(blk, ret):
+    """`for x in xs { A; if c { B; return e; } R }  rest`   becomes
+       `let mut ret_done = false; let mut ret_val: T = 0;
+        for x in xs { if !ret_done { A; if c { B; ret_val = e; ret_done = true; } else { R } } }
+        if ret_done { return ret_val; }  rest`
+    (T = the function's return type, an integer); only top-level loops of the function body."""
+    def is_ret_if(st):
+        return st[0] == 'expr' and st[1][0] == 'if' and st[1][3] is None and st[1][2][2] is not None \
+            and st[1][2][2][0] == 'return'
+    out = []
+    k = 0
+    for st in blk[1]:
+        if st[0] == 'for' and st[3][0] == 'block' and any(is_ret_if(x) for x in st[3][1]):
+            if not (isinstance(ret, str) and ret in INT_TYPES):
+                raise TranslateError('return inside a for loop of a function returning %r' % (ret,))
+            k += 1
+            d, r = 'ret_done' + ('' if k == 1 else str(k)), 'ret_val' + ('' if k == 1 else str(k))
+            body = st[3]
+            i = [j for j, x in enumerate(body[1]) if is_ret_if(x)][0]
+            pre, ifst, post = body[1][:i], body[1][i], body[1][i + 1:]
+            if any(is_ret_if(x) for x in post) or (body[2] is not None and body[2][0] == 'return'):
+                raise TranslateError('more than one return inside a for loop')
+            th = ifst[1][2]
+            new_th = ('block', th[1] + [('assign', ('path', [r]), '=', th[2][1]),
+                                        ('assign', ('path', [d]), '=', ('bool', True))], None)
+            new_el = ('block', post, body[2])
+            guarded = ('expr', ('if', ('un', '!', ('path', [d])),
+                                ('block', pre + [('expr', ('if', ifst[1][1], new_th, new_el))], None), None))
+            out += [('let', ('pvar', d), 'bool', ('bool', False)), ('let', ('pvar', r), ret, ('int', 0, None)),
+                    ('for', st[1], st[2], ('block', [guarded], None)),
+                    ('expr', ('if', ('path', [d]), ('block', [], ('return', ('path', [r]))), None))]
+        else:
+            out.append(st)
+    return ('block', out, blk[2])
+
+def parse_src(src, what):
+    p = P(lex(src))
+    return p.ty() if what == 'ty' else p.expr()
+
 def select_expr(body, steps):
     """navigate to a sub-expression of a parsed function body: ('let', name) = initialiser of the first
     `let name` (searched through nested blocks), 'then' / 'else' = branch of an `if`, 'final' = final
     expression of a block."""
+    skip = [0]
     def find_let(blk, name):
         for st in blk[1]:
             if st[0] == 'let' and st[1] == ('pvar', name) and st[3] is not None:
-                return st[3]
+                if skip[0] == 0:
+                    return st[3]
+                skip[0] -= 1
             subs = []
             if st[0] == 'let' and st[3] is not None:
                 subs.append(st[3])
@@ -2316,9 +2459,31 @@ def select_expr(body, steps):
         return None
     cur = body
     for st in steps:
-        if isinstance(st, tuple) and st[0] == 'let':
+        if isinstance(st, tuple) and st[0] == 'ifstmt':
+            # the k-th `if` statement of the (top-level) block, k from 0
+            if cur[0] != 'block':
+                raise TranslateError('fragment: if searched in a non-block')
+            ifs = [x[1] for x in cur[1] if x[0] == 'expr' and x[1][0] == 'if']
+            if cur[2] is not None and cur[2][0] == 'if':
+                ifs.append(cur[2])
+            if st[1] >= len(ifs):
+                raise TranslateError('fragment: if statement %d not found' % st[1])
+            cur = ifs[st[1]]
+        elif st == 'cond':
+            if cur[0] != 'if':
+                raise TranslateError('fragment: cond of a non-if')
+            cur = cur[1]
+        elif st == 'recv':
+            if cur[0] == 'try':
+                cur = cur[1]
+            elif cur[0] == 'method':
+                cur = cur[1]
+            else:
+                raise TranslateError('fragment: recv of %s' % cur[0])
+        elif isinstance(st, tuple) and st[0] == 'let':
             if cur[0] != 'block':
                 raise TranslateError('fragment: let %s searched in a non-block' % st[1])
+            skip[0] = st[2] if len(st) > 2 else 0
             cur = find_let(cur, st[1])
             if cur is None:
                 raise TranslateError('fragment: let %s not found' % st[1])
@@ -2334,6 +2499,8 @@ def select_expr(body, steps):
             if cur[0] != 'if' or (st == 'else' and cur[3] is None):
                 raise TranslateError('fragment: %s of a non-if' % st)
             cur = cur[2] if st == 'then' else cur[3]
+        elif st == 'final' and cur[0] == 'block' and not cur[1] and cur[2] is not None and cur[2][0] == 'if':
+            cur = cur[2]            # `else if ..`: the block that wraps the nested if
         elif st == 'final':
             if cur[0] != 'block' or cur[2] is None or cur[2][0] == 'return':
                 raise TranslateError('fragment: block without final expression')
